@@ -33,7 +33,7 @@ func init() {
 		},
 		Real:     []string{"fp.Seq methods, seq / iterator / list packages", "immutable package and fp.Map/fp.Set", "fp.Option / fp.Try / tuples"},
 		Stub:     []string{"memory layout of the inputs (arenas owned by the harness)", "clients and their operation order (seeded scheduler)", "hashers"},
-		Quick:    Budget{Runs: 20000, Wall: 50 * time.Second},
+		Quick:    Budget{Runs: 60000, Wall: 50 * time.Second},
 		Thorough: Budget{Runs: 2000000, Wall: 25 * time.Minute},
 		Exec:     execC04,
 	})
